@@ -690,7 +690,7 @@ def strat_tape(fmt='cas', maxfiles=4, maxlen=MAXLEN):
     return st.randoms(use_true_random=False).map(lambda rng: rand_tape(rng, fmt, maxfiles, maxlen))
 
 
-RAND_COUNTS = {'cas': {'quick': 90, 'thorough': 3000}, 'wav': {'quick': 12, 'thorough': 150}}
+RAND_COUNTS = {'cas': {'quick': 60, 'thorough': 3000}, 'wav': {'quick': 12, 'thorough': 150}}
 
 
 def _gen_rand(fmt, maxfiles, maxlen):
